@@ -18,7 +18,8 @@ LEVEL = 'exploration'
 CASE_TIMEOUT = 300
 BATCH_SIZE = {'quick': 1, 'thorough': 1}
 REQUIRED_COUNTERS = ['trees', 'constructions', 'drop_level_checks',
-                     'leaf_pair_sets_checked', 'malformed_rejected']
+                     'leaf_pair_sets_checked', 'malformed_rejected',
+                     'malformed_label_tables_rejected']
 EXHAUSTIVE = {'quick': False, 'thorough': True}
 RULE = ('case = a block of taxonomy shapes (thorough: all 470 unordered '
         'shapes with <=4 levels and <=6 leaves, exhaustive; quick: every '
@@ -247,6 +248,43 @@ def check_tree(ctx, model, rng, work):
             rows[lf].append(i)
         rmodel.cells = rows
         compare_tree_to_model(ctx, t4, rmodel, 'from-label-columns')
+        # malformed label table: one cell's coarser label changed so that
+        # a node below the top level gets a second parent
+        if len(model.hierarchy) >= 2 and len(records) >= 2:
+            for attempt in range(4):
+                li = int(rng.integers(0, len(model.hierarchy) - 1))
+                lv = model.hierarchy[li]
+                if len(model.nodes[lv]) < 2:
+                    continue
+                bad = copy.deepcopy(records)
+                ci = int(rng.integers(len(bad)))
+                # the edit must leave at least one other cell sharing the
+                # child node, so that the child really has two parents
+                child_lv = model.hierarchy[li + 1]
+                mates = [k for k, r in enumerate(bad) if k != ci and
+                         r[child_lv] == bad[ci][child_lv]]
+                if not mates:
+                    continue
+                others = [n for n in model.nodes[lv] if n != bad[ci][lv]]
+                bad[ci][lv] = others[int(rng.integers(len(others)))]
+                # ancestors above follow the new node (consistent above)
+                for lj in range(li):
+                    uj = model.hierarchy[lj]
+                    bad[ci][uj] = model.ancestor(lv, bad[ci][lv], uj)
+                try:
+                    get_taxonomy_tree(obs_records=bad,
+                                      column_hierarchy=list(
+                                          model.hierarchy))
+                except Exception:
+                    ctx.bump('malformed_rejected')
+                    ctx.bump('malformed_label_tables_rejected')
+                    break
+                ctx.V('C10:malformed-label-table-accepted',
+                      f'cell {ci} relabelled {lv}='
+                      f'{bad[ci][lv]!r}: node {child_lv}='
+                      f'{bad[ci][child_lv]!r} now has two parents, table '
+                      f'accepted; records {json.dumps(bad)[:700]}')
+                break
         if rng.random() < 0.15:
             import pandas as pd
             p = work / 'lab.h5ad'
